@@ -414,6 +414,31 @@ fn sweep_cases(seed: u64, tier: &str, bins: &Binaries, scratch: Option<&str>) ->
         c.note = "sweep/e2 path followed by a second line on stdin".into();
         out.push(Planned { case: c, stratum: "sweep-unusable" });
     }
+    // (e3) what stdin claims to be, and a relative file name: neither may matter
+    {
+        let lines = vec!["a1".to_string(), "b,2".to_string(), "ü".to_string()];
+        let content = frame(&lines, 1, false, &mut rng);
+        for kind in 1..=4u8 {
+            for ch in ["stdin", "file-via-stdin"] {
+                let mut c = make_case(ch, &lines, &content, &busy, &mut rng, true);
+                c.stdin_kind = kind;
+                c.note = format!("sweep/e3 stdin reports kind {}", kind);
+                out.push(Planned { case: c, stratum: "sweep-stdin-kinds" });
+            }
+        }
+        for ch in ["file", "file-via-stdin", "probe"] {
+            for name in ["cases.txt", "with space.txt", "-dash.txt"] {
+                if *name == *"-dash.txt" && ch != "file-via-stdin" {
+                    continue; // a leading hyphen is an option to clap; through stdin it is just a name
+                }
+                let mut c = if ch == "probe" { make_probe_case(&content, &busy, &mut rng) } else { make_case(ch, &lines, &content, &busy, &mut rng, true) };
+                c.relative_path = true;
+                c.file_name = name.to_string();
+                c.note = format!("sweep/e3 relative path {:?}", name);
+                out.push(Planned { case: c, stratum: "sweep-file-names" });
+            }
+        }
+    }
     // (f) outside the property, logged and never judged: stdin is a terminal; stdout fails hard
     {
         let mut c = make_case("stdin", &["a".to_string()], b"a\n", &Cfg::default(), &mut rng, true);
@@ -511,6 +536,12 @@ fn random_case(rng: &mut Rng) -> Planned {
             }
             if rng.chance(1, 3) {
                 c.file_name = rng.pick(FILE_NAMES).to_string();
+            }
+            if rng.chance(1, 5) {
+                c.stdin_kind = rng.range(1, 4) as u8;
+            }
+            if rng.chance(1, 5) {
+                c.relative_path = true;
             }
             c.note = "search".into();
             return Planned { case: c, stratum: if hard { "search-hard" } else { "search-benign" } };
@@ -963,7 +994,7 @@ fn mode_run(args: &[String]) -> i32 {
         *expect_kinds.entry(ek).or_insert(0) += 1;
         let nontriv = !d.obs.fired.is_empty() || d.obs.reads_r0 + d.obs.reads_rf >= 2;
         if nontriv {
-            let fp = fnv1a(format!("{:?}|{:?}|{:?}|{:?}|{:?}|{:?}|{:?}", d.case.argv, d.case.stdin, d.case.file, d.case.events, d.case.dchunk, d.case.file_mode, (&d.case.env, d.case.tty_out, &d.case.file_name)).as_bytes());
+            let fp = fnv1a(format!("{:?}|{:?}|{:?}|{:?}|{:?}|{:?}|{:?}", d.case.argv, d.case.stdin, d.case.file, d.case.events, d.case.dchunk, d.case.file_mode, (&d.case.env, d.case.tty_out, &d.case.file_name, d.case.stdin_kind, d.case.relative_path)).as_bytes());
             nontrivial.insert(fp);
         }
         // reach probes
@@ -1001,7 +1032,11 @@ fn mode_run(args: &[String]) -> i32 {
     for (sig, ds) in &by_sig {
         let d = ds[0];
         let class = d.verdict.class.clone().unwrap();
-        let (min, attempts) = minimise_case(&d.case, sig, &bins);
+        let (min, attempts) = if std::env::var("VERIF_NO_MINIMISE").as_deref() == Ok("1") {
+            (d.case.clone(), 0)
+        } else {
+            minimise_case(&d.case, sig, &bins)
+        };
         // re-run the minimised case twice before it is written
         let stable = (0..2).all(|_| {
             run_in_slot(&min, &bins, 20, 17)
